@@ -58,6 +58,8 @@ type Case struct {
 	// Oracle, when non-empty, is a driver line evaluating the Lean Spec predicate on
 	// (input, implementation output); the driver answers "ok" or "viol <reason>".
 	Oracle string
+	// Oracles: further Spec lines, each must answer "ok" (used by stateful histories).
+	Oracles []string
 	// PanicOnly: the input is outside the property's domain; only crash-freedom is compared.
 	PanicOnly  bool
 	Key        string // distinctness key (defaults to Op)
@@ -98,6 +100,7 @@ type Env struct {
 	Driver   string
 	Search   bool // running as the search phase (tie broken): generate wider
 	cases    []Case
+	t0       time.Time
 	notes    map[string]any
 	extraObl []Obligation
 }
@@ -109,6 +112,23 @@ type Obligation struct {
 }
 
 func (e *Env) Thorough() bool { return e.Tier == "thorough" }
+
+// OverBudget: generators with expensive cases stop adding new ones when the run has used its
+// time budget (quick 90 s, thorough 20 min), e.g. because a change made every step slow.
+func (e *Env) OverBudget() bool {
+	if e.t0.IsZero() {
+		e.t0 = time.Now()
+	}
+	b := 90 * time.Second
+	if e.Thorough() {
+		b = 20 * time.Minute
+	}
+	if time.Since(e.t0) > b {
+		e.Note("time_budget_exhausted", true)
+		return true
+	}
+	return false
+}
 func (e *Env) N(quick, thorough int) int {
 	if e.Search || e.Thorough() {
 		return thorough
@@ -143,7 +163,7 @@ func RunDriver(driver string, lines []string) ([]string, error) {
 	}
 	var in bytes.Buffer
 	for _, l := range lines {
-		if strings.ContainsAny(l, "\n\r") {
+		if strings.ContainsAny(l, "\n\r") || l == "" {
 			return nil, fmt.Errorf("driver line contains newline: %q", l)
 		}
 		in.WriteString(l)
@@ -194,17 +214,24 @@ func Evaluate(e *Env, findings []Finding) (*Report, error) {
 	rep := &Report{Prop: e.Prop, TagHist: map[string]int{}, KnownHits: map[string]int{}, Notes: e.notes, Obligations: e.extraObl}
 	var lines []string
 	idxOp := make([]int, len(e.cases))
+	nOp := make([]int, len(e.cases))
 	idxOr := make([]int, len(e.cases))
+	idxOrs := make([]int, len(e.cases))
 	for i, c := range e.cases {
 		idxOp[i], idxOr[i] = -1, -1
 		if c.Op != "" {
+			// an Op may hold several lines (a stateful session); the answers are joined the same way
 			idxOp[i] = len(lines)
-			lines = append(lines, c.Op)
+			ls := strings.Split(c.Op, "\n")
+			nOp[i] = len(ls)
+			lines = append(lines, ls...)
 		}
 		if c.Oracle != "" {
 			idxOr[i] = len(lines)
 			lines = append(lines, c.Oracle)
 		}
+		idxOrs[i] = len(lines)
+		lines = append(lines, c.Oracles...)
 	}
 	outs, err := RunDriver(e.Driver, lines)
 	if err != nil {
@@ -228,10 +255,10 @@ func Evaluate(e *Env, findings []Finding) (*Report, error) {
 		}
 		model := ""
 		if idxOp[i] >= 0 {
-			model = outs[idxOp[i]]
+			model = strings.Join(outs[idxOp[i]:idxOp[i]+nOp[i]], "\n")
 			rep.ModelCompared++
 			bad := false
-			if model == "bad-op" {
+			if model == "bad-op" || strings.Contains(model, "\nbad-op") || strings.HasPrefix(model, "bad-op\n") {
 				bad = true
 			} else if c.PanicOnly {
 				bad = isPanic(model) != isPanic(c.Impl)
@@ -255,6 +282,12 @@ func Evaluate(e *Env, findings []Finding) (*Report, error) {
 			o := outs[idxOr[i]]
 			if o != "ok" {
 				reason = o
+			}
+		}
+		for j := range c.Oracles {
+			rep.OracleChecked++
+			if o := outs[idxOrs[i]+j]; o != "ok" && reason == "" {
+				reason = o + " [" + trunc(c.Oracles[j], 600) + "]"
 			}
 		}
 		if reason != "" {
